@@ -433,6 +433,44 @@ func featuresOf(c *core.Case) *features {
 			}
 		}
 	}
+	// the same behind a store, with wider windows: the write unit(s) can be busy
+	// with the store for a whole memory latency, so a register write issued
+	// within 16 executed instructions behind a store waits on the write bus; a
+	// later writer of that register within the next 16 (also one that reads it:
+	// it takes the value from the rename table and does not wait) can overtake
+	// it, and a commit within the 16 after that (conditional branch, end of the
+	// run) lets the older value land last. Witnesses: the two C01 thorough-tier
+	// replays findings/KF-W4b-*.replay.json (one write unit, gone with two).
+	{
+		behindStore := make([]bool, n)
+		commitSoon := make([]bool, n)
+		last := -1 << 30
+		for i := 0; i < n; i++ {
+			behindStore[i] = i-last <= 16
+			if inst(i).Op.IsStore() {
+				last = i
+			}
+		}
+		next := 1 << 30
+		for j := n - 1; j >= 0; j-- {
+			commitSoon[j] = j >= n-16 || next-j <= 16
+			if inst(j).Op.IsCondBranch() {
+				next = j
+			}
+		}
+		for i := 0; i < n; i++ {
+			rd, w := inst(i).Writes()
+			if !behindStore[i] || !w || rd == isa.Zero {
+				continue
+			}
+			for j := i + 1; j < n && j <= i+16; j++ {
+				if rd2, w2 := inst(j).Writes(); w2 && rd2 == rd && commitSoon[j] {
+					f.slowWaw = true
+					oSlow = append(oSlow, origin{pos: j, reg: rd, hasReg: true})
+				}
+			}
+		}
+	}
 	// write-after-read seen by a waiting instruction: a load re-reads its base
 	// register while it waits for its line; a consumer of a load result reads
 	// its other sources when the load completes
